@@ -183,12 +183,12 @@ template <class S, int D> std::string lattice() {
 
 namespace target {
 
-enum VOp { V_VEC, V_MESH_VERTEX, V_MESH_TET, V_MESH_HEX, V_COUNT };
+enum VOp { V_VEC, V_MESH_VERTEX, V_MESH_TET, V_MESH_HEX, V_MESH_POLY, V_COUNT };
 const std::vector<OpInfo> &optable() {
-  static const std::vector<OpInfo> t = {{"vector", 5}, {"mesh_vertex", 5}, {"mesh_tet", 4}, {"mesh_cube", 4}};
+  static const std::vector<OpInfo> t = {{"vector", 5}, {"mesh_vertex", 5}, {"mesh_tet", 4}, {"mesh_cube", 4}, {"mesh_poly", 5}};
   return t;
 }
-std::vector<std::pair<int, int>> weights(const std::string &) { return {{10, V_VEC}, {6, V_MESH_VERTEX}, {4, V_MESH_TET}, {2, V_MESH_HEX}}; }
+std::vector<std::pair<int, int>> weights(const std::string &) { return {{10, V_VEC}, {6, V_MESH_VERTEX}, {4, V_MESH_TET}, {2, V_MESH_HEX}, {3, V_MESH_POLY}}; }
 static std::string oneline(std::string s) { for (auto &c : s) if (c == '\n' || c == '\r') c = ' '; return s; }
 
 template <class S> S value_of(int code) {
@@ -312,12 +312,41 @@ vf::CaseResult run_case(const std::string &id, const Program &prog, Stats &st) {
   }
   uint64_t special = 0, geo = 0;
   uint64_t before = g_checks;
+  // general polyhedra: pyramids and prisms over irregular planar 3..6-gons (vertices lie in different numbers of faces)
+  GeometricPolyhedralMeshV3d pm;
+  for (size_t oi = 0; oi < prog.size(); ++oi) {
+    const Op &op = prog[oi];
+    if (op.code != V_MESH_POLY || pm.n_cells() >= 3) continue;
+    int n = 3 + op.a[0] % 4;
+    bool prism = op.a[1] % 2;
+    double ox = 7.0 * pm.n_cells() + (op.a[2] % 5) * 0.25, oy = (op.a[3] % 7) - 3.0, oz = (op.a[4] % 4) * 0.5;
+    std::vector<VertexHandle> b, t;
+    for (int i = 0; i < n; ++i) {
+      double ang = 6.283185307179586 * i / n, r = 1.0 + 0.5 * ((op.a[2] / 5 + i * 3) % 4);
+      b.push_back(pm.add_vertex(Geometry::Vec3d(ox + r * std::cos(ang), oy + r * std::sin(ang), oz)));
+    }
+    Geometry::Vec3d shift(0.5 * (op.a[3] % 3), -0.25 * (op.a[4] % 5), 1.0 + (op.a[0] / 4) % 3);
+    std::vector<HalfFaceHandle> hfs;
+    hfs.push_back(pm.halfface_handle(pm.add_face(b), 0));
+    if (prism) {
+      for (int i = 0; i < n; ++i) t.push_back(pm.add_vertex(pm.vertex(b[(size_t)i]) + shift));
+      hfs.push_back(pm.halfface_handle(pm.add_face(std::vector<VertexHandle>(t.rbegin(), t.rend())), 0));
+      for (int i = 0; i < n; ++i) { int j = (i + 1) % n; hfs.push_back(pm.halfface_handle(pm.add_face(std::vector<VertexHandle>{b[(size_t)j], b[(size_t)i], t[(size_t)i], t[(size_t)j]}), 0)); }
+    } else {
+      VertexHandle apex = pm.add_vertex(Geometry::Vec3d(ox, oy, oz) + shift);
+      for (int i = 0; i < n; ++i) { int j = (i + 1) % n; hfs.push_back(pm.halfface_handle(pm.add_face(std::vector<VertexHandle>{b[(size_t)j], b[(size_t)i], apex}), 0)); }
+    }
+    CellHandle c = pm.add_cell(hfs, true);
+    res.annot[oi] = std::string(prism ? "prism" : "pyramid") + " over a " + std::to_string(n) + "-gon -> cell " + std::to_string(c.idx());
+    st.count(prism ? "poly_prisms" : "poly_pyramids");
+  }
 #define RUN(S, D) if (fail.empty()) fail = pairs<S, D>(vecs, special);
   RUN(int, 2) RUN(int, 3) RUN(int, 4) RUN(unsigned, 2) RUN(unsigned, 3) RUN(unsigned, 4) RUN(float, 2) RUN(float, 3) RUN(float, 4) RUN(double, 2) RUN(double, 3) RUN(double, 4)
 #undef RUN
   if (fail.empty()) fail = geometry(tm, geo);
   if (fail.empty()) fail = geometry(tf, geo);
   if (fail.empty()) fail = geometry(hm, geo);
+  if (fail.empty()) fail = geometry(pm, geo);
   st.count("vector_pair_checks", g_checks - before); st.count("pairs_with_special_values", special); st.count("geometry_entities_checked", geo);
   res.nontrivial = (vecs.size() >= 2 && special > 0) || geo > 0;
   if (!fail.empty()) { res.ok = false; res.msg = oneline(fail); }
